@@ -1,13 +1,18 @@
 CONSTANTS
   SPs = {"A", "B"}
+  AllowInit = {"B"}
   MaxResps = 2
+  MaxTicks = 1
 INIT Init
 NEXT Next
 VIEW View
 INVARIANT SessionImpliesAuthenticated
 PROPERTIES
   SessionOnlyThroughOwnResponse
+  NoUnsolicitedWithoutOptIn
+  StaleIsRefused
   ResponsesOnlyWhenEntitled
   FaithfulRunCompletes
+  SessionsEnd
   EmitEdge
 CHECK_DEADLOCK FALSE
